@@ -7,7 +7,8 @@ CONSTANTS
   Big = FALSE
   MaxStack = 3
   ResetKeepsMarkers = FALSE
-  IterMayNotPush = FALSE
+  IterMayNotPush = TRUE
+  PopStackByCount = FALSE
   MoveCmds = {"Move"}
   ReadCmds = {"Read", "Toggle"}
 VIEW View
